@@ -167,6 +167,61 @@ def nested_source(depth, kind):
     return "\n".join(lines) + "\n"
 
 
+def wide_source(kind, k):
+    """One function made of k SEQUENTIAL compound statements (breadth instead of depth): path-based analyses that are not memoised
+    need 2^k steps on reconverging branches.  Every shape is valid Python."""
+    L = ["def wide(x, xs):", "    t = 0"]
+    pre_loop = ["    for a in xs:", "        t += a"]
+    if kind == "loop_then_ifelse_return":          # a loop, then k if/else whose paths all end in return
+        L += pre_loop
+        for i in range(k):
+            L += ["    if x == %d:" % i, "        t += 1", "    else:", "        t -= 1"]
+        L += ["    if t:", "        return t", "    else:", "        return 0"]
+    elif kind == "ifs_loop_ifelse":                 # plain ifs, a loop, then if/else
+        for i in range(k):
+            L += ["    if x == %d:" % i, "        t += 1"]
+        L += pre_loop
+        for i in range(k):
+            L += ["    if x > %d:" % i, "        t += 1", "    else:", "        t -= 1"]
+        L += ["    return t"]
+    elif kind == "ifelse_in_loop":
+        L += ["    while x:"]
+        for i in range(k):
+            L += ["        if x == %d:" % i, "            t += 1", "        else:", "            continue" if i % 7 == 3 else "            t -= 1"]
+        L += ["        x -= 1", "    return t"]
+    elif kind == "try_except_seq":
+        L += pre_loop
+        for i in range(k):
+            L += ["    try:", "        t += int(x)", "    except ValueError:", "        t -= 1", "    except TypeError:", "        return %d" % i]
+        L += ["    return t"]
+    elif kind == "elif_chain":
+        L += pre_loop + ["    if x == -1:", "        return -1"]
+        for i in range(k):
+            L += ["    elif x == %d:" % i, "        t += %d" % i if i % 2 else "        return %d" % i]
+        L += ["    else:", "        return t", "    return t"]
+    elif kind == "match_cases":
+        L += pre_loop + ["    match x:"]
+        for i in range(k):
+            L += ["        case %d:" % i, "            t += 1" if i % 2 else "            return t"]
+        L += ["    return t"]
+    elif kind == "loops_with_else_seq":
+        for i in range(k):
+            L += ["    for a in xs:", "        if a == %d:" % i, "            break", "    else:", "        t += 1"]
+        L += ["    return t"]
+    elif kind == "with_return_seq":
+        L += pre_loop
+        for i in range(k):
+            L += ["    with open(x) as f%d:" % i, "        if f%d:" % i, "            t += 1", "        else:", "            t -= 1"]
+        L += ["    return t"]
+    else:
+        raise ValueError(kind)
+    return "\n".join(L) + "\n"
+
+
+WIDE_KINDS = ["loop_then_ifelse_return", "ifs_loop_ifelse", "ifelse_in_loop", "try_except_seq", "elif_chain", "match_cases", "loops_with_else_seq",
+              "with_return_seq"]
+
+
 def sections_for(data, keep):
     """Projection of a report onto the files in `keep` (base names)."""
     def base(p):
@@ -417,6 +472,45 @@ def main(tier):
             stats["nesting_runs"] += 1
             check_run("nesting %s depth %d" % (kind, depth), r[0], r[1], r[2], r[3], len(src), {"kind": "nesting", "construct": kind, "depth": depth})
             times.append(r[3])
+    # ----- breadth: k sequential compound statements in one function (several copies per file: the order in which blocks are
+    # queried is a Go map order), time proportional to size
+    stats["wide_runs"] = 0
+
+    def wide_one(item):
+        kind, k = item
+        wd = os.path.join(root, "wide_%s_%d" % (kind, k))
+        os.makedirs(wd)
+        one = wide_source(kind, k)
+        src = "\n\n".join(one.replace("def wide(", "def wide%d(" % j) for j in range(4))
+        with open(os.path.join(wd, "wide.py"), "w") as f:
+            f.write(src)
+        # clone detection is measured separately below (finding F71): here every analysis whose cost should be linear in the function
+        return kind, k, src, run_cli(["analyze", "--json", "--no-open", "--min-complexity", "1", "--select", "complexity,deadcode,cbo,lcom,deps", "."], wd, timeout=60)
+    wide_items = [(kind, k) for kind in WIDE_KINDS for k in ((30, 60, 120) if thorough else (30, 60))]
+    with ThreadPoolExecutor(max_workers=8) as ex:
+        for kind, k, src, r in ex.map(wide_one, wide_items):
+            stats["wide_runs"] += 1
+            check_run("breadth %s x %d" % (kind, k), r[0], r[1], r[2], r[3], len(src), {"kind": "breadth", "shape": kind, "k": k, "source_head": src[:1500]})
+    # ----- clone detection on one long elif chain: every nested `if` of the chain is a fragment and each pair is compared by APTED,
+    # the time grows roughly with the cube of the number of clauses (finding F71); measured at 10 and 20 clauses
+    ct = {}
+    for k in (10, 20):
+        cd = os.path.join(root, "wide_clones_%d" % k)
+        os.makedirs(cd)
+        one = wide_source("elif_chain", k)
+        with open(os.path.join(cd, "wide.py"), "w") as f:
+            f.write("\n\n".join(one.replace("def wide(", "def wide%d(" % j) for j in range(4)))
+        r = run_cli(["analyze", "--json", "--no-open", "--select", "clones", "."], cd, timeout=120)
+        check_run("clone detection on an elif chain of %d clauses" % k, r[0], r[1], r[2], min(r[3], 1.0), 1000, {"kind": "breadth-clones", "k": k})
+        ct[k] = r[3]
+    stats["clone_elif_chain_seconds"] = {str(k): round(v, 2) for k, v in ct.items()}
+    if ct[20] > 5 * max(ct[10], 0.05) and ct[20] > 2.0:
+        kf = ck.match_known({"class": "clone-detection-elif-chain"})
+        if kf is not None:
+            ck.known_finding(kf)
+        else:
+            ck.violation("clone detection time is not proportional to the input size: an elif chain of 10 clauses takes %.1fs, of 20 clauses %.1fs"
+                         % (ct[10], ct[20]), {"kind": "breadth-clones", "seconds": stats["clone_elif_chain_seconds"]})
     # ----- longest import chain: model vs implementation on small graphs; super-linear growth (finding F21)
     if ck.go_ok:
         graphs = []
@@ -460,13 +554,14 @@ def main(tier):
                              {"kind": "depth-time", "micros": stats["complete_dag_micros"]})
     ck.samples = [{"label": l, "content_head": c[:60].decode("latin-1")} for l, c in bads[:6]]
     ck.cov.update({
-        "evaluations": stats["mixed_runs"] + stats["alone_runs"] + stats["role_runs"] + stats["surface_runs"] + stats["format_runs"] + stats["nesting_runs"] + stats["depth_graphs"],
+        "evaluations": stats["mixed_runs"] + stats["alone_runs"] + stats["role_runs"] + stats["surface_runs"] + stats["wide_runs"] + stats["format_runs"] + stats["nesting_runs"] + stats["depth_graphs"],
         "distinct_nontrivial": stats["bad_inputs"],
         "rule": "malformed stream (syntax errors, truncations, bit flips, binary, encodings, BOM, CR/CRLF, very long line, deep parentheses) each "
                 "analysed alone and mixed into a project of 5 good files (all analyses), report sections of the good files compared with the "
                 "baseline; malformed content in every role of a package project (package __init__ with re-exports, imported module, sub-package "
                 "__init__, leaf, importer) compared with the project without that file; valid sources rewritten with a continuation after every keyword/operator kind and "
-                "newlines/comments inside brackets (same AST under CPython) must not crash and must give the per-function results of the plain file; 4 output formats; nesting depth 40..320 of if/for/try; calculateMaxDepth vs its Coq model on random graphs. "
+                "newlines/comments inside brackets (same AST under CPython) must not crash and must give the per-function results of the plain file; 4 output formats; nesting depth 40..320 of if/for/try; breadth: 30..120 sequential compound statements of eight shapes (loop then if/else "
+                "returns, if/else in a loop, try/except, elif chain, match cases, loops with else, with blocks); calculateMaxDepth vs its Coq model on random graphs. "
                 "This stream is evidence for the un-modelled part (tree-sitter, Go runtime, OS); it is a test, not a proof.",
         "input_distribution": stats, "disagreements_checked": len(ck.violations),
     })
